@@ -395,7 +395,7 @@ func (c *Ctx) checkMapDeref(r *Report, fn *ssa.Function, lk *ssa.Lookup) {
 	}
 	bad := false
 	w := &Walk{Fn: fn, Assume: assume}
-	w.Visit = func(in ssa.Instruction, env map[*ssa.Phi]Val) bool {
+	w.Visit = func(in ssa.Instruction, env Env) bool {
 		if base, ok := isDeref[in]; ok {
 			if v := w.eval(base, env); v.Kind == 2 && v.B {
 				if !bad {
